@@ -5,15 +5,22 @@
 //! Case (emitted by MC_Shapes): {id:{kind,shape,ctx,...}, clause, base:{main:[tops], other:[tops]?}, planted:{...}}
 //! Record: {id, clause, base:{class, loads, stage, kinds, detail}, planted:{..same..}, src_base?, src_planted?}
 //!   class ok|err|panic; loads yes|no|na (minilua load of the emitted Lua); stage syntax|later|none (did the parser reject?)
+//!   c05 famrecord <cases.ndjson> <trace.ndjson>   families of SyltShapesFam: one program per case
+//!   c05 famprint  <cases.ndjson> <n>              source of family case n
+//! Family case (emitted by MC_ShapesFam): {key:[..], id:{kind,shape,sub,ctx}, clause, expect:"accept"|"reject", prog:{main:[tops]}}
+//! Family record: {key, id, clause, expect, obs:{class, loads, stage, kinds, detail}, src?}  (src when the observation is not what `expect` says)
+//!   Family programs use nothing of the standard library and are compiled without it (C05_FAM_STD=1: with it).
 //! Rust only renders, compiles, loads and records; the expectation is evaluated by TLC (MC_Shapes, mode validate).
 //! C05_STUB=accept: negative control - every planted program is recorded as accepted ("ok").
 //! C05_STUB=noload: negative control - every accepted base is recorded as not loading.
+//! C05_STUB=flip (famrecord): negative control - every observation is recorded as its opposite (accepted <-> rejected).
 
 use serde_json::{json, Value};
 use std::collections::BTreeMap;
 use std::path::Path;
 use vharness::printer::{print_program, PrintOpts};
 use vharness::util::*;
+use vharness::project::{compile_opts, CompileOpts};
 use vharness::{CompileResult, Project};
 
 fn project_of(p: &Value) -> Project {
@@ -37,7 +44,11 @@ fn source_text(p: &Project) -> String {
 
 /// compile, and for accepted programs load the emitted Lua
 fn observe(p: &Project) -> Value {
-    match vharness::compile(p) {
+    observe_with(p, false)
+}
+
+fn observe_with(p: &Project, no_std: bool) -> Value {
+    match compile_opts(p, &CompileOpts { no_std, ..Default::default() }).0 {
         CompileResult::Ok { lua } => match vharness::luarun::load_only(&lua) {
             Ok(()) => json!({"class": "ok", "loads": "yes", "stage": "none", "kinds": [], "detail": ""}),
             Err(m) => json!({"class": "ok", "loads": "no", "stage": "none", "kinds": [], "detail": m}),
@@ -121,6 +132,38 @@ fn main() {
                 if !fine {
                     r["src_base"] = json!(source_text(&pb));
                     r["src_planted"] = json!(source_text(&pp));
+                }
+                r
+            });
+            write_ndjson(Path::new(&args[3]), &recs);
+        }
+        "famprint" => {
+            let cases: Vec<Value> = read_ndjson(Path::new(&args[2]));
+            let n: usize = args[3].parse().unwrap();
+            println!("// {} expect={}\n{}", cases[n]["key"], cases[n]["expect"], source_text(&project_of(&cases[n]["prog"])));
+        }
+        "famrecord" => {
+            if args.len() < 4 {
+                tool_error("usage: c05 famrecord <cases> <trace>");
+            }
+            let cases: Vec<Value> = read_ndjson(Path::new(&args[2]));
+            let stub = std::env::var("C05_STUB").unwrap_or_default();
+            let no_std = std::env::var("C05_FAM_STD").unwrap_or_default() != "1";
+            let recs = vharness::pool::par_map(&cases, |_, c| {
+                let p = project_of(&c["prog"]);
+                let mut o = observe_with(&p, no_std);
+                if stub == "flip" {
+                    o = if o["class"] == "ok" {
+                        json!({"class": "err", "loads": "na", "stage": "later", "kinds": ["stub"], "detail": "stub"})
+                    } else {
+                        json!({"class": "ok", "loads": "yes", "stage": "none", "kinds": [], "detail": "stub"})
+                    };
+                }
+                let accept = c["expect"] == "accept";
+                let fine = if accept { o["class"] == "ok" && o["loads"] == "yes" } else { o["class"] == "err" && o["stage"] != "syntax" };
+                let mut r = json!({"key": c["key"], "id": c["id"], "clause": c["clause"], "expect": c["expect"], "obs": o});
+                if !fine {
+                    r["src"] = json!(source_text(&p));
                 }
                 r
             });
